@@ -295,6 +295,16 @@ pub fn gen_registry_world(tape: &mut Tape, cfg: &RegGenCfg) -> World {
     w.registry.packages.insert(name.to_string(), pkg);
   }
   w.render_registry(&embed_info);
+  // a manifest that carries `lockfileChecksum` is a vendored copy: the loader
+  // does not verify such files (that is what the field exists for)
+  for (name, pkg) in &w.registry.packages {
+    for (v, pv) in &pkg.versions {
+      if pv.lockfile_checksum.is_some() {
+        w.vendored
+          .insert(format!("{}{}/{}_meta.json", REGISTRY, name, v));
+      }
+    }
+  }
   // cache tier
   if cfg.allow_cache {
     let urls: Vec<String> = w
@@ -386,9 +396,12 @@ pub fn gen_registry_world(tape: &mut Tape, cfg: &RegGenCfg) -> World {
           0 | 1 => {
             // pin some requirement
             let req = *tape.pick(Stream::World, &REQ_POOL);
-            w.lockfile
-              .jsr_specifiers
-              .insert(format!("jsr:{}{}", name, req), v.clone());
+            // a lockfile pins a requirement to a version that satisfies it
+            if req_matches(req, v) {
+              w.lockfile
+                .jsr_specifiers
+                .insert(format!("jsr:{}{}", name, req), v.clone());
+            }
           }
           2 => {
             // manifest checksum, matching
@@ -500,4 +513,17 @@ pub fn resync_registry(w: &mut World) {
   }
   w.registry = reg;
   w.render_registry(&embed_info);
+}
+
+/// Does the requirement suffix (`""`, `"@^1"`, ...) admit version `v`?
+pub fn req_matches(req_suffix: &str, v: &str) -> bool {
+  let txt = req_suffix.strip_prefix('@').unwrap_or("*");
+  let txt = if txt.is_empty() { "*" } else { txt };
+  match (
+    deno_semver::VersionReq::parse_from_specifier(txt),
+    deno_semver::Version::parse_standard(v),
+  ) {
+    (Ok(r), Ok(v)) => r.tag().is_none() && r.matches(&v),
+    _ => false,
+  }
 }
